@@ -7,6 +7,7 @@ from .kernels import key_of
 from .guards import ACQ
 
 P1_, P2_, P3_ = ('param', 1), ('param', 2), ('param', 3)
+REMOVAL_OPS = {'remove', 'swap_remove', 'drain', 'retain', 'pop', 'truncate', 'split_off', 'extract_if', 'dedup', 'dedup_by', 'dedup_by_key'}
 
 
 def model(ctx, fl):
@@ -166,9 +167,9 @@ def p2_disconnect_directed(ctx, flavours):
                 continue
             f, op = next(iter(mu))
             own_sig.append((pretty(own), M.role(f), op))
-            if own == P1_ and M.role(f) == 'OUT' and op == 'remove':
+            if own == P1_ and M.role(f) == 'OUT' and op in REMOVAL_OPS:
                 first = e
-            elif M.role(f) == 'IN' and op == 'remove':
+            elif M.role(f) == 'IN' and op in REMOVAL_OPS:
                 second = e
         if len(evs) != 2 or first is None or second is None:
             why.append('effects are %s, expected {(self,OUT,remove),(peer,IN,remove)}' % own_sig)
@@ -244,7 +245,7 @@ def p2_disconnect_undirected(ctx, flavours):
                 why.append('%s at self touches both lists %s: the half removed is not known, so its partner cannot be' % (mq.split('::')[-1], sorted(M.role(f) for f, _ in mu)))
                 continue
             f, op = next(iter(mu))
-            if op != 'remove':
+            if op not in REMOVAL_OPS:
                 why.append('self effect %s' % op)
                 continue
             oke, erre = _ok_edge(F, b, bi, t)
@@ -254,7 +255,7 @@ def p2_disconnect_undirected(ctx, flavours):
             partners = [p for p in peers if cfg.edge_dominates(oke[0], oke[1], p[0]) and not any(
                 cfg.edge_dominates(*(_ok_edge(F, b, s2[0], s2[4])[0] or (0, 0)), p[0]) for s2 in selfs if s2 is not e and cfg.path_exists(bi, s2[0]))]
             partners = [p for p in partners if True]
-            good = [p for p in partners if len(M.muts(p[1])) == 1 and next(iter(M.muts(p[1])))[0] != f and next(iter(M.muts(p[1])))[1] == 'remove' and strip_payload(p[3][0]) == KEY1]
+            good = [p for p in partners if len(M.muts(p[1])) == 1 and next(iter(M.muts(p[1])))[0] != f and next(iter(M.muts(p[1])))[1] in REMOVAL_OPS and strip_payload(p[3][0]) == KEY1]
             if len(good) != 1:
                 why.append('own %s removal has %d complementary peer removals keyed key(self) on its Ok path' % (M.role(f), len(good)))
             k = deep_unwrap(args[0]) if args else None
@@ -320,7 +321,7 @@ def p3_isolate(ctx, flavours):
         KEY1 = key_of(P1_)
         loops = cfg.loops()
         clears = [e for e in evs if {op for _, op in M.muts(e[1])} == {'clear'}]
-        rems = [e for e in evs if {op for _, op in M.muts(e[1])} == {'remove'}]
+        rems = [e for e in evs if {op for _, op in M.muts(e[1])} <= REMOVAL_OPS and M.muts(e[1])]
         others = [e for e in evs if e not in clears and e not in rems]
         if others:
             why.append('unexpected effects: ' + ', '.join(e[1].split('::')[-1] for e in others))
@@ -497,7 +498,7 @@ def rm1_first_match(ctx, flavours):
         M = model(ctx, fl)
         n = 0
         for q, m in sorted(M.methods.items()):
-            rm = [(f, op, bi) for f, op, bi in m['ops'] if op == 'remove']
+            rm = [(f, op, bi) for f, op, bi in m['ops'] if op in REMOVAL_OPS]
             if not rm:
                 continue
             n += 1
@@ -505,7 +506,9 @@ def rm1_first_match(ctx, flavours):
             cfg, pv = F.cfg(b), F.prov(b)
             why = []
             if len(rm) != 1:
-                why.append('%d Vec::remove sites' % len(rm))
+                why.append('%d removal sites' % len(rm))
+            elif rm[0][1] != 'remove':
+                why.append('entry is taken out with Vec::%s, which does not keep the order of the remaining entries / does not remove exactly the matched entry' % rm[0][1])
             else:
                 f, op, rbi = rm[0]
                 rt = b['blocks'][rbi]['term']
